@@ -369,3 +369,15 @@ _EXTRA14 = {
 }
 for _k, _v in _EXTRA14.items():
     PROPS[_k]['text'] = PROPS[_k]['text'].rstrip() + _v
+
+_EXTRA15 = {
+ 'C02': ' DST is never dispatched (C02-R31, defect F57 - fixed).',
+ 'C04': ' A single-pixel reader addresses pixels with the bytes per pixel of its row (C04-R22).',
+ 'C06': ' The clamp constants of translate are the limits of the coordinate type (C06-R16 = C07-R11).',
+ 'C08': ' PAD rows name loops that pad with the edge pixel (C08-R22); the kernel window is placed from the rounded position (C08-R23).',
+ 'C10': ' Iterators that read bits directly are registered for images without accessors only (C02-R1i, run for C10).',
+ 'C12': ' The deferred span is written out at its saved bounds (C12-R21).',
+ 'C16': ' composite_triangles and composite_glyphs validate before they return (C16-R8 through callees, defect F58 - fixed).',
+}
+for _k, _v in _EXTRA15.items():
+    PROPS[_k]['text'] = PROPS[_k]['text'].rstrip() + _v
